@@ -6,6 +6,7 @@ export GOFLAGS=-mod=mod GOPROXY=off GOSUMDB=off GOTOOLCHAIN=local CGO_ENABLED=1
 mkdir -p bin evidence replays .work
 cp -f /repo/go.sum harness/go.sum 2>/dev/null || true
 (cd harness && go build -o ../bin/vcheck ./cmd/vcheck) || exit 1
-(cd harness && go build -tags verif -o /dev/null ./cmd/ioworker && go build -tags verif -asan -o /dev/null ./cmd/ioworker) || exit 1
-(cd harness && go build -race -o /dev/null std 2>/dev/null; true)
+(cd harness && go build -tags verif -o /dev/null ./cmd/ioworker ./cmd/feworker) || exit 1
+(cd harness && go build -tags verif -asan -o /dev/null ./cmd/ioworker) || echo "warning: -asan build unavailable"
+(cd harness && go build -tags verif -race -o /dev/null ./cmd/feworker) || echo "warning: -race build unavailable"
 echo setup ok
